@@ -10,6 +10,8 @@ open MongoModel MongoModel.AggHeap
 
 abbrev Dr : Disc := Disc.reference
 
+theorem dr_arrayConst : Dr.arrayConst = .evaluated := rfl
+
 /-! ### expressions -/
 
 mutual
@@ -38,20 +40,24 @@ mutual
         have := deepTmp_win (b := b) v n hb
         exact ⟨this.1, fun x hx => by cases hx; exact this.2⟩
       · cases h; exact ⟨Nat.le_refl _, fun v hv => by cases hv⟩
-    | .carr loc, n, r, n', hb, _, h => by
-      simp only [evalExpr] at h
+    | .carr loc items, n, r, n', hb, hd, h => by
+      simp only [evalExpr, dr_arrayConst] at h
       split at h
-      · next v hv =>
+      · next ks n2 hk =>
         cases h
-        have := deepTmp_win (b := b) v n hb
-        exact ⟨this.1, fun x hx => by cases hx; exact this.2⟩
-      · cases h; exact ⟨Nat.le_refl _, fun v hv => by cases hv⟩
+        have := evalKids_win (b := b) pipe doc true items (n + 1) ks n' (by omega)
+          (all_mono (fun i hi => inR_mono (Nat.le_refl _) (by omega) i hi) _ hd) hk
+        refine ⟨by omega, fun v hv => ?_⟩
+        cases hv
+        simp only [HV.all, Bool.and_eq_true]
+        exact ⟨inR_tmp hb (by omega), this.2⟩
+      · cases h
     | .obj kids, n, r, n', hb, hd, h => by
       simp only [evalExpr] at h
       split at h
       · next ks n2 hk =>
         cases h
-        have := evalKids_win (b := b) pipe doc kids (n + 1) ks n' (by omega)
+        have := evalKids_win (b := b) pipe doc false kids (n + 1) ks n' (by omega)
           (all_mono (fun i hi => inR_mono (Nat.le_refl _) (by omega) i hi) _ hd) hk
         refine ⟨by omega, fun v hv => ?_⟩
         cases hv
@@ -59,8 +65,8 @@ mutual
         exact ⟨inR_tmp hb (by omega), this.2⟩
       · cases h
     | .unmodelled, n, r, n', _, _, h => by simp [evalExpr] at h
-  theorem evalKids_win {b : Nat} (pipe doc : HV) : ∀ (kids : List (String × AExpr)) (n : Nat) (ks : Kids) (n' : Nat),
-      b ≤ n → doc.all (inR b n) = true → evalKids Dr pipe doc kids n = .ok (ks, n') →
+  theorem evalKids_win {b : Nat} (pipe doc : HV) (nm : Bool) : ∀ (kids : List (String × AExpr)) (n : Nat) (ks : Kids) (n' : Nat),
+      b ≤ n → doc.all (inR b n) = true → evalKids Dr pipe doc nm kids n = .ok (ks, n') →
       n ≤ n' ∧ allKids (inR b n') ks = true
     | [], n, ks, n', _, _, h => by
       simp only [evalKids] at h; cases h; exact ⟨Nat.le_refl _, by simp [allKids]⟩
@@ -70,15 +76,25 @@ mutual
       · cases h
       · next n1 he =>
         have h1 := evalExpr_win (b := b) pipe doc e n none n1 hb hd he
-        have h2 := evalKids_win (b := b) pipe doc r n1 ks n' (by omega)
-          (all_mono (fun i hi => inR_mono (Nat.le_refl _) h1.1 i hi) _ hd) h
-        exact ⟨by omega, h2.2⟩
+        split at h
+        · split at h
+          · next ks2 n2 hk =>
+            cases h
+            have h2 := evalKids_win (b := b) pipe doc nm r n1 ks2 n' (by omega)
+              (all_mono (fun i hi => inR_mono (Nat.le_refl _) h1.1 i hi) _ hd) hk
+            refine ⟨by omega, ?_⟩
+            simp only [allKids, HV.all, Bool.true_and]
+            exact h2.2
+          · cases h
+        · have h2 := evalKids_win (b := b) pipe doc nm r n1 ks n' (by omega)
+            (all_mono (fun i hi => inR_mono (Nat.le_refl _) h1.1 i hi) _ hd) h
+          exact ⟨by omega, h2.2⟩
       · next v n1 he =>
         have h1 := evalExpr_win (b := b) pipe doc e n (some v) n1 hb hd he
         split at h
         · next ks2 n2 hk =>
           cases h
-          have h2 := evalKids_win (b := b) pipe doc r n1 ks2 n' (by omega)
+          have h2 := evalKids_win (b := b) pipe doc nm r n1 ks2 n' (by omega)
             (all_mono (fun i hi => inR_mono (Nat.le_refl _) h1.1 i hi) _ hd) hk
           refine ⟨by omega, ?_⟩
           simp only [allKids, Bool.and_eq_true]
@@ -88,15 +104,23 @@ end
 
 /-! ### the invariant of the running call -/
 
+/-- no run-local identity -/
+abbrev notTmp : Id → Bool := fun i => !i.isTmp
+
+theorem inR_not_notTmp {b m : Nat} (i : Id) : inR b m i = true → notTmp i = false := by
+  cases i <;> simp [inR, notTmp, Id.isTmp]
+
 /-- everything the call works on (`work`, `out`) was allocated by the call in the window
-    `[b, nextTmp)`; nothing that outlives the stage (collections, pipeline object, the lists an
-    enclosing `$facet` keeps alive) contains an identity of that window -/
+    `[b, nextTmp)`; the collections contain no run-local identity at all, and nothing else that
+    outlives the stage (pipeline object, the call's copy of it, the lists an enclosing `$facet`
+    keeps alive) contains an identity of that window -/
 structure WInv (b : Nat) (w : World) : Prop where
   hb : b ≤ w.nextTmp
   work : allL (inR b w.nextTmp) w.work = true
   out : allL (inR b w.nextTmp) w.out = true
-  colls : allColls (below b) w.colls = true
+  colls : allColls notTmp w.colls = true
   pipe : w.pipe.all (below b) = true
+  cpipe : w.cpipe.all (below b) = true
   stack : allLL (below b) w.stack = true
 
 /-- what a stage without `$out` must leave alone -/
@@ -104,14 +128,15 @@ structure Same (w w' : World) : Prop where
   colls : w'.colls = w.colls
   idx : w'.idx = w.idx
   pipe : w'.pipe = w.pipe
+  cpipe : w'.cpipe = w.cpipe
   stack : w'.stack = w.stack
   nextSt : w'.nextSt = w.nextSt
 
-theorem Same.rfl' (w : World) : Same w w := ⟨rfl, rfl, rfl, rfl, rfl⟩
+theorem Same.rfl' (w : World) : Same w w := ⟨rfl, rfl, rfl, rfl, rfl, rfl⟩
 
 theorem Same.trans {a b c : World} (h1 : Same a b) (h2 : Same b c) : Same a c :=
-  ⟨h2.colls.trans h1.colls, h2.idx.trans h1.idx, h2.pipe.trans h1.pipe, h2.stack.trans h1.stack,
-   h2.nextSt.trans h1.nextSt⟩
+  ⟨h2.colls.trans h1.colls, h2.idx.trans h1.idx, h2.pipe.trans h1.pipe, h2.cpipe.trans h1.cpipe,
+   h2.stack.trans h1.stack, h2.nextSt.trans h1.nextSt⟩
 
 /-- the conclusion every step lemma has -/
 structure Step (b : Nat) (w w' : World) : Prop where
@@ -128,8 +153,8 @@ theorem Step.refl {b : Nat} {w : World} (h : WInv b w) : Step b w w := ⟨h, Sam
 theorem WInv.bump {b : Nat} {w : World} (h : WInv b w) (n : Nat) (hn : w.nextTmp ≤ n) :
     Step b w { w with nextTmp := n } :=
   ⟨⟨Nat.le_trans h.hb hn, allL_mono (fun i hi => inR_mono (Nat.le_refl _) hn i hi) _ h.work,
-    allL_mono (fun i hi => inR_mono (Nat.le_refl _) hn i hi) _ h.out, h.colls, h.pipe, h.stack⟩,
-   ⟨rfl, rfl, rfl, rfl, rfl⟩, hn⟩
+    allL_mono (fun i hi => inR_mono (Nat.le_refl _) hn i hi) _ h.out, h.colls, h.pipe, h.cpipe, h.stack⟩,
+   ⟨rfl, rfl, rfl, rfl, rfl, rfl⟩, hn⟩
 
 /-- **an in-place write into an object of the window**, of values of the window -/
 theorem WInv.mutate {b : Nat} {w : World} (h : WInv b w) (id : Id) (f : Kids → Kids)
@@ -137,14 +162,16 @@ theorem WInv.mutate {b : Nat} {w : World} (h : WInv b w) (id : Id) (f : Kids →
     (hf : ∀ ks, allKids (inR b w.nextTmp) ks = true → allKids (inR b w.nextTmp) (f ks) = true) :
     Step b w (w.mutate id f) := by
   have hnb := inR_not_below id hid
-  refine ⟨⟨h.hb, ?_, ?_, ?_, ?_, ?_⟩, ⟨?_, rfl, ?_, ?_, rfl⟩, Nat.le_refl _⟩
+  refine ⟨⟨h.hb, ?_, ?_, ?_, ?_, ?_, ?_⟩, ⟨?_, rfl, ?_, ?_, ?_, rfl⟩, Nat.le_refl _⟩
   · exact mutateL_all id f hf _ h.work
   · exact mutateL_all id f hf _ h.out
-  · simp only [World.mutate]; rw [mutateColls_noop (below b) id f hnb _ h.colls]; exact h.colls
+  · simp only [World.mutate]; rw [mutateColls_noop notTmp id f (inR_not_notTmp id hid) _ h.colls]; exact h.colls
   · simp only [World.mutate]; rw [mutate_noop (below b) id f hnb _ h.pipe]; exact h.pipe
+  · simp only [World.mutate]; rw [mutate_noop (below b) id f hnb _ h.cpipe]; exact h.cpipe
   · simp only [World.mutate]; rw [mutateLL_noop (below b) id f hnb _ h.stack]; exact h.stack
-  · simp only [World.mutate]; exact mutateColls_noop (below b) id f hnb _ h.colls
+  · simp only [World.mutate]; exact mutateColls_noop notTmp id f (inR_not_notTmp id hid) _ h.colls
   · simp only [World.mutate]; exact mutate_noop (below b) id f hnb _ h.pipe
+  · simp only [World.mutate]; exact mutate_noop (below b) id f hnb _ h.cpipe
   · simp only [World.mutate]; exact mutateLL_noop (below b) id f hnb _ h.stack
 
 /-! ### `$addFields` -/
@@ -163,8 +190,8 @@ theorem setOut_step {b : Nat} (w : World) (j : Nat) (path : List String) (v : HV
     have htop := allL_getElem? _ _ _ h.out ht
     have hp := setPathCopy_win (b := b) .shallow v path top w.nextTmp h.hb htop hv
     have hb1 := h.bump (setPathCopy .shallow v path top w.nextTmp).2 hp.1
-    exact ⟨⟨hb1.inv.hb, hb1.inv.work, allL_set _ _ _ hb1.inv.out hp.2, h.colls, h.pipe, h.stack⟩,
-      ⟨rfl, rfl, rfl, rfl, rfl⟩, hp.1⟩
+    exact ⟨⟨hb1.inv.hb, hb1.inv.work, allL_set _ _ _ hb1.inv.out hp.2, h.colls, h.pipe, h.cpipe, h.stack⟩,
+      ⟨rfl, rfl, rfl, rfl, rfl, rfl⟩, hp.1⟩
   · cases hs; exact Step.refl h
 
 theorem addField_step {b : Nat} (path : List String) (e : AExpr) :
@@ -180,11 +207,11 @@ theorem addField_step {b : Nat} (path : List String) (e : AExpr) :
       split at hs
       · cases hs
       · next n' he =>
-        have h1 := evalExpr_win (b := b) w.pipe inDoc e w.nextTmp none n' h.hb hdoc he
+        have h1 := evalExpr_win (b := b) w.cpipe inDoc e w.nextTmp none n' h.hb hdoc he
         have hb1 := h.bump n' h1.1
         exact hb1.trans (addField_step path e fuel _ (j + 1) w' hb1.inv hs)
       · next v n' he =>
-        have h1 := evalExpr_win (b := b) w.pipe inDoc e w.nextTmp (some v) n' h.hb hdoc he
+        have h1 := evalExpr_win (b := b) w.cpipe inDoc e w.nextTmp (some v) n' h.hb hdoc he
         have hb1 := h.bump n' h1.1
         split at hs
         · next w1 hso =>
@@ -281,6 +308,13 @@ theorem all_itemAt {p : Id → Bool} (key : String) (i : Nat) (x v : HV) (hx : x
         | tail _ hm => exact ih ⟨hl.1, hl.2.2⟩ hm
   · cases h
 
+theorem unwoundValue_all {p : Id → Bool} (key : String) (c other : HV)
+    (hc : c.all p = true) (ho : other.all p = true) : (unwoundValue Dr key c other).all p = true := by
+  simp only [unwoundValue, dr_unwindItem]
+  cases h : c.get key with
+  | none => simpa [Option.getD] using ho
+  | some v => simpa [Option.getD] using all_get key c v hc h
+
 theorem unwoundItem_all {p : Id → Bool} (key : String) (i : Nat) (c item : HV)
     (hc : c.all p = true) (hi : item.all p = true) : (unwoundItem Dr key i c item).all p = true := by
   simp only [unwoundItem, dr_unwindItem]
@@ -363,9 +397,11 @@ theorem unwindDoc_win {b : Nat} (key : String) (preserve : Bool) (idx : Option (
   · next other hn1 hn2 hn3 hg =>
     have hit := all_get key doc _ hd hg
     simp only [dr_unwindDoc, Copy.run, allL, Bool.and_true]
-    have hs := setIndex_win (b := b) idx .null ((deepTmp doc n).1.setLocal key other) (deepTmp doc n).2
-      (Nat.le_trans hb hc.1) (all_setLocal key _ other hc.2
-        (all_mono (fun q hq => inR_mono (Nat.le_refl _) hc.1 q hq) _ hit))
+    have hs := setIndex_win (b := b) idx .null
+      ((deepTmp doc n).1.setLocal key (unwoundValue Dr key (deepTmp doc n).1 other)) (deepTmp doc n).2
+      (Nat.le_trans hb hc.1) (all_setLocal key _ _ hc.2
+        (unwoundValue_all key _ other hc.2
+          (all_mono (fun q hq => inR_mono (Nat.le_refl _) hc.1 q hq) _ hit)))
     exact ⟨Nat.le_trans hc.1 hs.1, hs.2⟩
 
 theorem unwindAll_win {b : Nat} (key : String) (preserve : Bool) (idx : Option (List String)) : ∀ (l : List HV) (n : Nat),
@@ -418,7 +454,7 @@ theorem projectDoc_win {b : Nat} (pipe : HV) (noId : Bool) (incl : List String)
       cases h
       have hd1 : (HV.node i true kids).all (inR b (n + 1)) = true :=
         all_mono (fun i hi => inR_mono (Nat.le_refl _) (by omega) i hi) _ hd
-      have h1 := evalKids_win (b := b) pipe _ computed (n + 1) ks n' (by omega) hd1 hk
+      have h1 := evalKids_win (b := b) pipe _ false computed (n + 1) ks n' (by omega) hd1 hk
       refine ⟨by omega, ?_⟩
       simp only [HV.all, Bool.and_eq_true] at hd ⊢
       refine ⟨inR_tmp hb (by omega), allKids_foldl_kset ks _ h1.2 ?_⟩
@@ -481,20 +517,20 @@ theorem WInv.setWork {b : Nat} {w : World} (h : WInv b w) (vs : List HV) (n' : N
     (hn : w.nextTmp ≤ n') (hv : allL (inR b n') vs = true) :
     Step b w { w with work := vs, nextTmp := n' } :=
   ⟨⟨Nat.le_trans h.hb hn, hv, allL_mono (fun i hi => inR_mono (Nat.le_refl _) hn i hi) _ h.out,
-    h.colls, h.pipe, h.stack⟩, ⟨rfl, rfl, rfl, rfl, rfl⟩, hn⟩
+    h.colls, h.pipe, h.cpipe, h.stack⟩, ⟨rfl, rfl, rfl, rfl, rfl, rfl⟩, hn⟩
 
 /-- nothing alive contains an identity the call has not allocated yet -/
 structure Alive (w : World) : Prop where
-  colls : allColls (below w.nextTmp) w.colls = true
+  colls : allColls notTmp w.colls = true
   pipe : w.pipe.all (below w.nextTmp) = true
+  cpipe : w.cpipe.all (below w.nextTmp) = true
   stack : allLL (below w.nextTmp) w.stack = true
 
 /-- what `runBranches` does to the world: nothing but pushing the branches' outputs -/
 structure BrRes (w w' : World) (input : List HV) (rest : List (List HV)) (k : Nat) : Prop where
-  colls : w'.colls = w.colls
-  idx : w'.idx = w.idx
   pipe : w'.pipe = w.pipe
-  nextSt : w'.nextSt = w.nextSt
+  cpipe : w'.cpipe = w.cpipe
+  alive : Alive w'
   mono : w.nextTmp ≤ w'.nextTmp
   out : w'.out = []
   stack : ∃ outs : List (List HV), w'.stack = input :: (outs ++ rest) ∧ outs.length = k ∧
@@ -519,98 +555,267 @@ theorem facetDoc_all {p : Id → Bool} (n K : Nat) (hp : ∀ i, i < K → p (.tm
     refine ⟨⟨hp k (by omega), by rw [allKids_mapList]; exact hl.1⟩, ?_⟩
     exact facetDoc_all n K hp ts ls (k + 1) (by omega) hl.2
 
+/-- what EVERY stage leaves alone — `$out` included: the caller's pipeline object, the call's
+    copy of it, and the lists an enclosing `$facet` keeps alive -/
+structure Kept (w w' : World) : Prop where
+  pipe : w'.pipe = w.pipe
+  cpipe : w'.cpipe = w.cpipe
+  stack : w'.stack = w.stack
+
+theorem Kept.trans {a b c : World} (h1 : Kept a b) (h2 : Kept b c) : Kept a c :=
+  ⟨h2.pipe.trans h1.pipe, h2.cpipe.trans h1.cpipe, h2.stack.trans h1.stack⟩
+
+/-- the conclusion of the step lemmas for arbitrary stages -/
+structure StepK (b : Nat) (w w' : World) : Prop where
+  inv : WInv b w'
+  kept : Kept w w'
+  mono : w.nextTmp ≤ w'.nextTmp
+
+theorem Step.toK {b : Nat} {w w' : World} (h : Step b w w') : StepK b w w' :=
+  ⟨h.inv, ⟨h.same.pipe, h.same.cpipe, h.same.stack⟩, h.mono⟩
+
+theorem StepK.trans {b : Nat} {a c d : World} (h1 : StepK b a c) (h2 : StepK b c d) : StepK b a d :=
+  ⟨h2.inv, h1.kept.trans h2.kept, Nat.le_trans h1.mono h2.mono⟩
+
+theorem StepK.refl {b : Nat} {w : World} (h : WInv b w) : StepK b w w :=
+  ⟨h, ⟨rfl, rfl, rfl⟩, Nat.le_refl _⟩
+
+/-- what a stage that contains no `$out` leaves alone on top of that -/
+structure SameStore (w w' : World) : Prop where
+  colls : w'.colls = w.colls
+  idx : w'.idx = w.idx
+  nextSt : w'.nextSt = w.nextSt
+
+theorem SameStore.trans {a b c : World} (h1 : SameStore a b) (h2 : SameStore b c) : SameStore a c :=
+  ⟨h2.colls.trans h1.colls, h2.idx.trans h1.idx, h2.nextSt.trans h1.nextSt⟩
+
+theorem Same.store {w w' : World} (h : Same w w') : SameStore w w' := ⟨h.colls, h.idx, h.nextSt⟩
+
+/-- the stages other than `$facet` and `$out` -/
+theorem runStage_simple (sem : Sem) : ∀ (st : Stage) (b : Nat) (w w' : World), WInv b w → w.out = [] →
+    (∀ bs, st ≠ .facet bs) → st.noOut = true → runStage Dr sem w st = .ok w' → Step b w w' ∧ w'.out = []
+  | .select op opts, b, w, w', h, ho, _, _, hs => by
+    simp only [runStage] at hs
+    split at hs
+    · cases hs
+      exact ⟨h.setWork _ _ (Nat.le_refl _) (allL_pick _ h.work _), ho⟩
+    · cases hs
+  | .sample loc, b, w, w', h, ho, _, _, hs => by
+    simp only [runStage, sampleStage, dr_samplePops, Bool.false_eq_true, if_false] at hs
+    split at hs
+    · split at hs
+      · split at hs
+        · split at hs
+          · cases hs
+          · cases hs
+            exact ⟨h.setWork _ _ (Nat.le_refl _) (allL_take _ _ (allL_pick _ h.work _)), ho⟩
+        · cases hs
+      · cases hs
+      · cases hs
+      · cases hs
+    · cases hs
+  | .addFields fields, b, w, w', h, ho, _, _, hs => by
+    simp only [runStage, dr_addFieldsTop] at hs
+    split at hs
+    · cases hs
+    · split at hs
+      · next w1 ha =>
+        cases hs
+        have hc := runL_shallow_win (b := b) w.work w.nextTmp h.hb h.work
+        have h0 : WInv b { w with out := (Copy.runL .shallow w.work w.nextTmp).1,
+                                  nextTmp := (Copy.runL .shallow w.work w.nextTmp).2 } :=
+          ⟨Nat.le_trans h.hb hc.1, allL_mono (fun i hi => inR_mono (Nat.le_refl _) hc.1 i hi) _ h.work,
+           hc.2, h.colls, h.pipe, h.cpipe, h.stack⟩
+        have s1 := addFieldsAll_step (b := b) fields _ w1 h0 ha
+        refine ⟨⟨⟨s1.inv.hb, s1.inv.out, by simp [allL], s1.inv.colls, s1.inv.pipe, s1.inv.cpipe, s1.inv.stack⟩,
+          ⟨s1.same.colls, s1.same.idx, s1.same.pipe, s1.same.cpipe, s1.same.stack, s1.same.nextSt⟩,
+          Nat.le_trans hc.1 s1.mono⟩, rfl⟩
+      · cases hs
+  | .project noId incl computed, b, w, w', h, ho, _, _, hs => by
+    simp only [runStage] at hs
+    split at hs
+    · next vs n hp =>
+      cases hs
+      have h1 := projectAll_win (b := b) w.cpipe noId incl computed w.work w.nextTmp vs n h.hb h.work hp
+      exact ⟨h.setWork vs n h1.1 h1.2, ho⟩
+    · cases hs
+  | .unwind key preserve idx, b, w, w', h, ho, _, _, hs => by
+    simp only [runStage] at hs
+    split at hs
+    · cases hs
+    · split at hs
+      · cases hs
+      · split at hs
+        · cases hs
+        · cases hs
+          have h1 := unwindAll_win (b := b) key preserve idx w.work w.nextTmp h.hb h.work
+          exact ⟨h.setWork _ _ h1.1 h1.2, ho⟩
+  | .lookup frm loc frn as, b, w, w', h, ho, _, _, hs => by
+    simp only [runStage] at hs
+    have s1 := lookupAll_step (b := b) sem frm loc frn as _ w 0 w' h hs
+    exact ⟨s1, lookupAll_out sem frm loc frn as _ w 0 w' ho hs⟩
+  | .replaceRoot e, b, w, w', h, ho, _, _, hs => by
+    simp only [runStage] at hs
+    split at hs
+    · next vs n hp =>
+      cases hs
+      have h1 := replaceRootAll_win (b := b) w.cpipe e w.work w.nextTmp vs n h.hb h.work hp
+      exact ⟨h.setWork vs n h1.1 h1.2, ho⟩
+    · cases hs
+  | .count name, b, w, w', h, ho, _, _, hs => by
+    simp only [runStage] at hs
+    split at hs
+    · cases hs
+      exact ⟨h.setWork _ _ (Nat.le_refl _) (by simp [allL]), ho⟩
+    · cases hs
+      refine ⟨h.setWork _ _ (Nat.le_succ _) ?_, ho⟩
+      simp only [allL, HV.all, allKids, Bool.and_true]
+      exact inR_tmp h.hb (Nat.lt_succ_self _)
+  | .facet bs, b, w, w', h, ho, hf, _, hs => absurd rfl (hf bs)
+  | .out target, b, w, w', h, ho, _, hno, hs => by simp [Stage.noOut] at hno
+  | .fail e, b, w, w', h, ho, _, _, hs => by simp [runStage] at hs
+
+/-! ### `$out` keeps the invariant (it changes the store, and nothing else that persists) -/
+
 mutual
+  theorem deepSt_st : ∀ (v : HV) (n : Nat), (deepSt v n).1.all Id.isSt = true
+    | .atom _, _ => by simp [deepSt, HV.all]
+    | .node _ d kids, n => by
+      simp only [deepSt, HV.all, Id.isSt, Bool.true_and]
+      exact deepStKids_st kids (n + 1)
+  theorem deepStKids_st : ∀ (ks : Kids) (n : Nat), allKids Id.isSt (deepStKids ks n).1 = true
+    | [], _ => by simp [deepStKids, allKids]
+    | (k, v) :: r, n => by
+      simp only [deepStKids, allKids, Bool.and_eq_true]
+      exact ⟨deepSt_st v n, deepStKids_st r _⟩
+end
+
+theorem isSt_notTmp (i : Id) : i.isSt = true → notTmp i = true := by
+  cases i <;> simp [notTmp, Id.isTmp, Id.isSt]
+
+theorem allColls_getColl {p : Id → Bool} (t : String) : ∀ c : List (String × List HV),
+    allColls p c = true → allL p (getColl t c) = true
+  | [], _ => by simp [getColl, allL]
+  | (n, l) :: r, h => by
+    simp only [allColls, Bool.and_eq_true] at h
+    simp only [getColl]
+    split
+    · exact h.1
+    · exact allColls_getColl t r h.2
+
+theorem allColls_setColl {p : Id → Bool} (t : String) (docs : List HV) (hd : allL p docs = true) :
+    ∀ c : List (String × List HV), allColls p c = true → allColls p (setColl t docs c) = true
+  | [], _ => by simp [setColl, allColls, hd]
+  | (n, l) :: r, h => by
+    simp only [allColls, Bool.and_eq_true] at h
+    simp only [setColl]
+    split
+    · simp [allColls, hd, h.2]
+    · simp [allColls, h.1, allColls_setColl t docs hd r h.2]
+
+/-- changing the store (collections, catalog, counter) to collections without run-local
+    identities keeps the invariant -/
+theorem WInv.setStore {b : Nat} {w : World} (h : WInv b w) (colls : List (String × List HV))
+    (idx : List (String × List String)) (nSt : Nat) (hc : allColls notTmp colls = true) :
+    WInv b { w with colls := colls, idx := idx, nextSt := nSt } :=
+  ⟨h.hb, h.work, h.out, hc, h.pipe, h.cpipe, h.stack⟩
+
+theorem dr_outStores' : Dr.outStores = .deep := rfl
+
+theorem outInsert_inv {b : Nat} (sem : Sem) (target : String) :
+    ∀ (fuel : Nat) (w : World) (j : Nat) (r : World × Option Err), WInv b w → w.out = [] →
+      outInsert Dr sem target w fuel j = r →
+      WInv b r.1 ∧ Kept w r.1 ∧ r.1.nextTmp = w.nextTmp ∧ r.1.out = []
+  | 0, w, j, r, h, ho, hr => by
+    simp only [outInsert] at hr; subst hr; exact ⟨h, ⟨rfl, rfl, rfl⟩, rfl, ho⟩
+  | fuel + 1, w, j, r, h, ho, hr => by
+    simp only [outInsert] at hr
+    split at hr
+    · subst hr; exact ⟨h, ⟨rfl, rfl, rfl⟩, rfl, ho⟩
+    · next doc hd =>
+      have hdoc := allL_getElem? _ _ _ h.work hd
+      split at hr
+      · next id kids =>
+        simp only [HV.all, Bool.and_eq_true] at hdoc
+        -- the world after the generated `_id` was written (or not)
+        have hw1 : ∀ w1 : World,
+            w1 = (if (kget "_id" kids).isSome = true then w
+                  else w.mutate id (kset "_id" (.atom (.oid (1000 + w.nextSt))))) →
+            WInv b w1 ∧ Kept w w1 ∧ w1.nextTmp = w.nextTmp ∧ w1.out = [] := by
+          intro w1 e
+          by_cases hid : (kget "_id" kids).isSome = true
+          · simp only [hid, if_true] at e; subst e; exact ⟨h, ⟨rfl, rfl, rfl⟩, rfl, ho⟩
+          · simp only [hid, Bool.false_eq_true, if_false] at e
+            subst e
+            have hm := h.mutate id (kset "_id" (.atom (.oid (1000 + w.nextSt)))) hdoc.1
+              (fun ks hk => allKids_kset "_id" _ (by simp [HV.all]) ks hk)
+            exact ⟨hm.inv, ⟨hm.same.pipe, hm.same.cpipe, hm.same.stack⟩, rfl,
+              by simp [World.mutate, ho, mutateL]⟩
+        generalize hg : (if (kget "_id" kids).isSome = true then w
+            else w.mutate id (kset "_id" (.atom (.oid (1000 + w.nextSt))))) = w1 at hr
+        obtain ⟨i1, k1, n1, o1⟩ := hw1 w1 hg.symm
+        split at hr
+        · next id1 kids1 hd1 =>
+          split at hr
+          · subst hr; exact ⟨i1, k1, n1, o1⟩
+          · simp only [dr_outStores'] at hr
+            have hst : allColls notTmp
+                (setColl target (getColl target w1.colls ++ [(deepSt (.node id1 true kids1) w1.nextSt).1])
+                  w1.colls) = true := by
+              apply allColls_setColl _ _ _ _ i1.colls
+              rw [allL_append]
+              simp only [allL, Bool.and_true, Bool.and_eq_true]
+              exact ⟨allColls_getColl target _ i1.colls,
+                all_mono isSt_notTmp _ (deepSt_st _ _)⟩
+            have i2 := i1.setStore _ w1.idx (deepSt (.node id1 true kids1) w1.nextSt).2 hst
+            have ih := outInsert_inv sem target fuel _ (j + 1) r i2 o1 hr
+            exact ⟨ih.1, ⟨ih.2.1.pipe.trans k1.pipe, ih.2.1.cpipe.trans k1.cpipe,
+              ih.2.1.stack.trans k1.stack⟩, ih.2.2.1.trans n1, ih.2.2.2⟩
+        · subst hr; exact ⟨i1, k1, n1, o1⟩
+      · subst hr; exact ⟨h, ⟨rfl, rfl, rfl⟩, rfl, ho⟩
+
+/-- **`$out`** writes into the documents it is handed (objects of the call) and into the store;
+    the invariant holds afterwards, and the caller's pipeline object, the call's copy of it and
+    the lists a `$facet` keeps alive are what they were -/
+theorem outStage_step {b : Nat} (sem : Sem) (target : String) (w w' : World) (h : WInv b w)
+    (ho : w.out = []) (hs : outStage Dr sem target w = .ok w') : StepK b w w' ∧ w'.out = [] := by
+  simp only [outStage] at hs
+  split at hs
+  · next w1 he =>
+    cases hs
+    have e : w' = (outStageW Dr sem target w).1 := by rw [he]
+    rw [e]
+    simp only [outStageW]
+    split
+    · have r := outInsert_inv (b := b) sem target w.work.length w 0 _ h ho rfl
+      exact ⟨⟨r.1, r.2.1, Nat.le_of_eq r.2.2.1.symm⟩, r.2.2.2⟩
+    · have h0 : WInv b { w with colls := setColl target [] w.colls, idx := dropIdx target w.idx } :=
+        ⟨h.hb, h.work, h.out, allColls_setColl target [] (by simp [allL]) _ h.colls, h.pipe, h.cpipe,
+         h.stack⟩
+      have r := outInsert_inv (b := b) sem target w.work.length _ 0 _ h0 ho rfl
+      exact ⟨⟨r.1, ⟨r.2.1.pipe, r.2.1.cpipe, r.2.1.stack⟩, Nat.le_of_eq r.2.2.1.symm⟩, r.2.2.2⟩
+  · cases hs
+
+mutual
+  /-- EVERY stage keeps the invariant and leaves the caller's pipeline object, the call's copy of
+      it and the lists an enclosing `$facet` keeps alive as they are; a stage that contains no
+      `$out` leaves the store alone too -/
   theorem runStage_step (sem : Sem) : ∀ (st : Stage) (b : Nat) (w w' : World), WInv b w → w.out = [] →
-      st.noOut = true → runStage Dr sem w st = .ok w' → Step b w w' ∧ w'.out = []
-    | .select op opts, b, w, w', h, ho, _, hs => by
-      simp only [runStage] at hs
-      split at hs
-      · cases hs
-        exact ⟨h.setWork _ _ (Nat.le_refl _) (allL_pick _ h.work _), ho⟩
-      · cases hs
-    | .sample loc, b, w, w', h, ho, _, hs => by
-      simp only [runStage, sampleStage, dr_samplePops, Bool.false_eq_true, if_false] at hs
-      split at hs
-      · split at hs
-        · split at hs
-          · split at hs
-            · cases hs
-            · cases hs
-              exact ⟨h.setWork _ _ (Nat.le_refl _) (allL_take _ _ (allL_pick _ h.work _)), ho⟩
-          · cases hs
-        · cases hs
-        · cases hs
-        · cases hs
-      · cases hs
-    | .addFields fields, b, w, w', h, ho, _, hs => by
-      simp only [runStage, dr_addFieldsTop] at hs
-      split at hs
-      · cases hs
-      · split at hs
-        · next w1 ha =>
-          cases hs
-          have hc := runL_shallow_win (b := b) w.work w.nextTmp h.hb h.work
-          have h0 : WInv b { w with out := (Copy.runL .shallow w.work w.nextTmp).1,
-                                    nextTmp := (Copy.runL .shallow w.work w.nextTmp).2 } :=
-            ⟨Nat.le_trans h.hb hc.1, allL_mono (fun i hi => inR_mono (Nat.le_refl _) hc.1 i hi) _ h.work,
-             hc.2, h.colls, h.pipe, h.stack⟩
-          have s1 := addFieldsAll_step (b := b) fields _ w1 h0 ha
-          refine ⟨⟨⟨s1.inv.hb, s1.inv.out, by simp [allL], s1.inv.colls, s1.inv.pipe, s1.inv.stack⟩,
-            ⟨s1.same.colls, s1.same.idx, s1.same.pipe, s1.same.stack, s1.same.nextSt⟩,
-            Nat.le_trans hc.1 s1.mono⟩, rfl⟩
-        · cases hs
-    | .project noId incl computed, b, w, w', h, ho, _, hs => by
-      simp only [runStage] at hs
-      split at hs
-      · next vs n hp =>
-        cases hs
-        have h1 := projectAll_win (b := b) w.pipe noId incl computed w.work w.nextTmp vs n h.hb h.work hp
-        exact ⟨h.setWork vs n h1.1 h1.2, ho⟩
-      · cases hs
-    | .unwind key preserve idx, b, w, w', h, ho, _, hs => by
-      simp only [runStage] at hs
-      split at hs
-      · cases hs
-      · split at hs
-        · cases hs
-        · split at hs
-          · cases hs
-          · cases hs
-            have h1 := unwindAll_win (b := b) key preserve idx w.work w.nextTmp h.hb h.work
-            exact ⟨h.setWork _ _ h1.1 h1.2, ho⟩
-    | .lookup frm loc frn as, b, w, w', h, ho, _, hs => by
-      simp only [runStage] at hs
-      have s1 := lookupAll_step (b := b) sem frm loc frn as _ w 0 w' h hs
-      exact ⟨s1, lookupAll_out sem frm loc frn as _ w 0 w' ho hs⟩
-    | .replaceRoot e, b, w, w', h, ho, _, hs => by
-      simp only [runStage] at hs
-      split at hs
-      · next vs n hp =>
-        cases hs
-        have h1 := replaceRootAll_win (b := b) w.pipe e w.work w.nextTmp vs n h.hb h.work hp
-        exact ⟨h.setWork vs n h1.1 h1.2, ho⟩
-      · cases hs
-    | .count name, b, w, w', h, ho, _, hs => by
-      simp only [runStage] at hs
-      split at hs
-      · cases hs
-        exact ⟨h.setWork _ _ (Nat.le_refl _) (by simp [allL]), ho⟩
-      · cases hs
-        refine ⟨h.setWork _ _ (Nat.le_succ _) ?_, ho⟩
-        simp only [allL, HV.all, allKids, Bool.and_true]
-        exact inR_tmp h.hb (Nat.lt_succ_self _)
-    | .facet bs, b, w, w', h, ho, hno, hs => by
+      runStage Dr sem w st = .ok w' →
+      StepK b w w' ∧ w'.out = [] ∧ (st.noOut = true → SameStore w w')
+    | .facet bs, b, w, w', h, ho, hs => by
       simp only [runStage] at hs
       split at hs
       · next w2 hr =>
         cases hs
-        simp only [Stage.noOut] at hno
         have hal : Alive { w with stack := w.work :: w.stack } :=
-          ⟨allColls_mono (below_mono h.hb) _ h.colls, all_mono (below_mono h.hb) _ h.pipe, by
+          ⟨h.colls, all_mono (below_mono h.hb) _ h.pipe,
+            all_mono (below_mono h.hb) _ h.cpipe, by
             simp only [allLL, Bool.and_eq_true]
             exact ⟨allL_mono (fun i hi => inR_below i hi) _ h.work, allLL_mono (below_mono h.hb) _ h.stack⟩⟩
-        have hb := runBranches_step sem bs { w with stack := w.work :: w.stack } w2 w.work w.stack
-          hal ho rfl hno hr
+        have hbr := runBranches_step sem bs { w with stack := w.work :: w.stack } w2 w.work w.stack
+          hal ho rfl hr
+        have hb := hbr.1
         obtain ⟨outs, hstk, hlen, hall⟩ := hb.stack
         have hmono : w.nextTmp ≤ w2.nextTmp := hb.mono
         have hdrop : w2.stack.drop (1 + bs.length) = w.stack := by
@@ -620,41 +825,78 @@ mutual
         have hallb : allLL (inR b (w2.nextTmp + 1 + bs.length)) outs.reverse = true := by
           rw [allLL_reverse]
           exact allLL_mono (fun i hi => inR_mono h.hb (by omega) i hi) _ hall
-        refine ⟨⟨⟨by simp only; have := h.hb; omega, ?_, by rw [hb.out]; simp [allL], ?_, ?_, ?_⟩,
-          ⟨hb.colls, hb.idx, hb.pipe, hdrop, hb.nextSt⟩, by simp only; omega⟩, hb.out⟩
+        refine ⟨⟨⟨by simp only; have := h.hb; omega, ?_, by rw [hb.out]; simp [allL], ?_, ?_, ?_, ?_⟩,
+          ⟨hb.pipe, hb.cpipe, hdrop⟩, by simp only; omega⟩, hb.out, fun hno => ?_⟩
         · simp only [facetDoc, allL, HV.all, Bool.and_true, Bool.and_eq_true]
           refine ⟨inR_tmp (by have := h.hb; omega) (by omega), ?_⟩
           rw [htake]
           exact facetDoc_all w2.nextTmp bs.length
             (fun i hi => inR_tmp (by have := h.hb; omega) (by omega)) _ _ 0
             (by simp [hlen]) hallb
-        · rw [hb.colls]; exact h.colls
+        · exact hb.alive.colls
         · rw [hb.pipe]; exact h.pipe
+        · rw [hb.cpipe]; exact h.cpipe
         · simp only; rw [hdrop]; exact h.stack
+        · simp only [Stage.noOut] at hno
+          have := hbr.2 hno
+          exact ⟨this.colls, this.idx, this.nextSt⟩
       · cases hs
-    | .out target, b, w, w', h, ho, hno, hs => by simp [Stage.noOut] at hno
-    | .fail e, b, w, w', h, ho, _, hs => by simp [runStage] at hs
+    | .out target, b, w, w', h, ho, hs => by
+      simp only [runStage] at hs
+      have s1 := outStage_step sem target w w' h ho hs
+      exact ⟨s1.1, s1.2, fun hno => by simp [Stage.noOut] at hno⟩
+    | .select op opts, b, w, w', h, ho, hs => by
+      have s1 := runStage_simple sem _ b w w' h ho (fun _ e => by cases e) rfl hs
+      exact ⟨s1.1.toK, s1.2, fun _ => s1.1.same.store⟩
+    | .sample loc, b, w, w', h, ho, hs => by
+      have s1 := runStage_simple sem _ b w w' h ho (fun _ e => by cases e) rfl hs
+      exact ⟨s1.1.toK, s1.2, fun _ => s1.1.same.store⟩
+    | .addFields fields, b, w, w', h, ho, hs => by
+      have s1 := runStage_simple sem _ b w w' h ho (fun _ e => by cases e) rfl hs
+      exact ⟨s1.1.toK, s1.2, fun _ => s1.1.same.store⟩
+    | .project noId incl computed, b, w, w', h, ho, hs => by
+      have s1 := runStage_simple sem _ b w w' h ho (fun _ e => by cases e) rfl hs
+      exact ⟨s1.1.toK, s1.2, fun _ => s1.1.same.store⟩
+    | .unwind key preserve idx, b, w, w', h, ho, hs => by
+      have s1 := runStage_simple sem _ b w w' h ho (fun _ e => by cases e) rfl hs
+      exact ⟨s1.1.toK, s1.2, fun _ => s1.1.same.store⟩
+    | .lookup frm loc frn as, b, w, w', h, ho, hs => by
+      have s1 := runStage_simple sem _ b w w' h ho (fun _ e => by cases e) rfl hs
+      exact ⟨s1.1.toK, s1.2, fun _ => s1.1.same.store⟩
+    | .replaceRoot e, b, w, w', h, ho, hs => by
+      have s1 := runStage_simple sem _ b w w' h ho (fun _ e => by cases e) rfl hs
+      exact ⟨s1.1.toK, s1.2, fun _ => s1.1.same.store⟩
+    | .count name, b, w, w', h, ho, hs => by
+      have s1 := runStage_simple sem _ b w w' h ho (fun _ e => by cases e) rfl hs
+      exact ⟨s1.1.toK, s1.2, fun _ => s1.1.same.store⟩
+    | .fail e, b, w, w', h, ho, hs => by simp [runStage] at hs
   theorem runStages_step (sem : Sem) : ∀ (ss : List Stage) (b : Nat) (w w' : World), WInv b w → w.out = [] →
-      noOutStages ss = true → runStages Dr sem w ss = .ok w' → Step b w w' ∧ w'.out = []
-    | [], b, w, w', h, ho, _, hs => by
-      simp only [runStages] at hs; cases hs; exact ⟨Step.refl h, ho⟩
-    | st :: r, b, w, w', h, ho, hno, hs => by
-      simp only [noOutStages, Bool.and_eq_true] at hno
+      runStages Dr sem w ss = .ok w' →
+      StepK b w w' ∧ w'.out = [] ∧ (noOutStages ss = true → SameStore w w')
+    | [], b, w, w', h, ho, hs => by
+      simp only [runStages] at hs; cases hs; exact ⟨StepK.refl h, ho, fun _ => ⟨rfl, rfl, rfl⟩⟩
+    | st :: r, b, w, w', h, ho, hs => by
       simp only [runStages] at hs
       split at hs
       · next w1 h1 =>
-        have s1 := runStage_step sem st b w w1 h ho hno.1 h1
-        have s2 := runStages_step sem r b w1 w' s1.1.inv s1.2 hno.2 hs
-        exact ⟨s1.1.trans s2.1, s2.2⟩
+        have s1 := runStage_step sem st b w w1 h ho h1
+        have s2 := runStages_step sem r b w1 w' s1.1.inv s1.2.1 hs
+        refine ⟨s1.1.trans s2.1, s2.2.1, fun hno => ?_⟩
+        simp only [noOutStages, Bool.and_eq_true] at hno
+        exact (s1.2.2 hno.1).trans (s2.2.2 hno.2)
       · cases hs
+  /-- the sub-pipelines of a `$facet`: besides `BrRes`, the collections stay free of run-local
+      identities (for any window the caller knows them to be free of), and without `$out` the
+      store is left alone -/
   theorem runBranches_step (sem : Sem) : ∀ (bs : List (String × List Stage)) (w w' : World)
       (input : List HV) (rest : List (List HV)), Alive w → w.out = [] → w.stack = input :: rest →
-      noOutBranches bs = true → runBranches Dr sem w bs = .ok w' → BrRes w w' input rest bs.length
-    | [], w, w', input, rest, _, ho, hstk, _, hs => by
+      runBranches Dr sem w bs = .ok w' →
+      BrRes w w' input rest bs.length ∧ (noOutBranches bs = true → SameStore w w')
+    | [], w, w', input, rest, hal, ho, hstk, hs => by
       simp only [runBranches] at hs; cases hs
-      exact ⟨rfl, rfl, rfl, rfl, Nat.le_refl _, ho, [], by simpa using hstk, rfl, by simp [allLL]⟩
-    | (t, sub) :: r, w, w', input, rest, hal, ho, hstk, hno, hs => by
-      simp only [noOutBranches, Bool.and_eq_true] at hno
+      exact ⟨⟨rfl, rfl, hal, Nat.le_refl _, ho, [], by simpa using hstk, rfl, by simp [allLL]⟩,
+        fun _ => ⟨rfl, rfl, rfl⟩⟩
+    | (t, sub) :: r, w, w', input, rest, hal, ho, hstk, hs => by
       simp only [runBranches, hstk, dr_facetShares, Bool.not_false, Bool.true_and,
         Bool.false_eq_true, if_false] at hs
       split at hs
@@ -663,12 +905,12 @@ mutual
         have hc := deepTmpL_win (b := w.nextTmp) input w.nextTmp (Nat.le_refl _)
         have h0 : WInv w.nextTmp { w with stack := input :: rest, work := (deepTmpL input w.nextTmp).1,
                                           nextTmp := (deepTmpL input w.nextTmp).2 } :=
-          ⟨hc.1, hc.2, by rw [ho]; simp [allL], hal.colls, hal.pipe, by
+          ⟨hc.1, hc.2, by rw [ho]; simp [allL], hal.colls, hal.pipe, hal.cpipe, by
             have := hal.stack; rw [hstk] at this; exact this⟩
         split at hs
         · next w1 h1 =>
-          have s1 := runStages_step sem sub w.nextTmp _ w1 h0 ho hno.1 h1
-          have hst1 : w1.stack = input :: rest := s1.1.same.stack
+          have s1 := runStages_step sem sub w.nextTmp _ w1 h0 ho h1
+          have hst1 : w1.stack = input :: rest := s1.1.kept.stack
           rw [hst1] at hs
           simp only at hs
           have hm1 : w.nextTmp ≤ w1.nextTmp := Nat.le_trans hc.1 s1.1.mono
@@ -676,25 +918,31 @@ mutual
             have hstk0 := hal.stack
             rw [hstk] at hstk0
             simp only [allLL, Bool.and_eq_true] at hstk0
-            refine ⟨?_, ?_, ?_⟩
-            · simp only; rw [s1.1.same.colls]; exact allColls_mono (below_mono hm1) _ hal.colls
-            · simp only; rw [s1.1.same.pipe]; exact all_mono (below_mono hm1) _ hal.pipe
+            refine ⟨?_, ?_, ?_, ?_⟩
+            · exact s1.1.inv.colls
+            · exact all_mono (below_mono hm1) _ s1.1.inv.pipe
+            · exact all_mono (below_mono hm1) _ s1.1.inv.cpipe
             · simp only [allLL, Bool.and_eq_true]
               exact ⟨allL_mono (below_mono hm1) _ hstk0.1,
                 allL_mono (fun i hi => inR_below i hi) _ s1.1.inv.work,
                 allLL_mono (below_mono hm1) _ hstk0.2⟩
-          have ih := runBranches_step sem r { w1 with stack := input :: w1.work :: rest } w' input
-            (w1.work :: rest) hal1 s1.2 rfl hno.2 hs
+          have ihh := runBranches_step sem r { w1 with stack := input :: w1.work :: rest } w' input
+            (w1.work :: rest) hal1 s1.2.1 rfl hs
+          have ih := ihh.1
           obtain ⟨outs, hstk2, hlen, hall⟩ := ih.stack
-          refine ⟨ih.colls.trans s1.1.same.colls, ih.idx.trans s1.1.same.idx,
-            ih.pipe.trans s1.1.same.pipe, ih.nextSt.trans s1.1.same.nextSt,
-            Nat.le_trans hm1 ih.mono, ih.out, outs ++ [w1.work], ?_, ?_, ?_⟩
+          refine ⟨⟨ih.pipe.trans s1.1.kept.pipe, ih.cpipe.trans s1.1.kept.cpipe, ih.alive,
+            Nat.le_trans hm1 ih.mono, ih.out, outs ++ [w1.work], ?_, ?_, ?_⟩, ?_⟩
           · rw [hstk2]; simp
           · simp [hlen]
           · rw [allLL_append]
             simp only [allLL, Bool.and_true, Bool.and_eq_true]
             exact ⟨allLL_mono (fun i hi => inR_mono hm1 (Nat.le_refl _) i hi) _ hall,
               allL_mono (fun i hi => inR_mono (Nat.le_refl _) ih.mono i hi) _ s1.1.inv.work⟩
+          · intro hno
+            simp only [noOutBranches, Bool.and_eq_true] at hno
+            have a1 := s1.2.2 hno.1
+            have a2 := ihh.2 hno.2
+            exact ⟨a2.colls.trans a1.colls, a2.idx.trans a1.idx, a2.nextSt.trans a1.nextSt⟩
         · cases hs
 end
 
